@@ -1053,10 +1053,13 @@ class ExprBuilder(c35.ApiBuilder):
             base = self._numeric_only(what, mx, lambda: hl.set(v))
         elif ctor in ('dict_get', 'dict_index', 'dict_values', 'dict_keys'):
             base = self._numeric_only(what, mx, lambda: hl.dict(v))
-        if ctor in ('append', 'contains'):
+        if ctor == 'append':
             x = mx.leaf(('L',), exact=_tcode(hl, base.dtype.element_type)).value
-            if ctor == 'append':
-                mx.retyped_items = 0        # a documented requirement, not an exclusion
+            mx.retyped_items = 0        # a documented requirement, not an exclusion
+        elif ctor == 'contains':
+            # any item that coerces to the element type, as for sets and dict keys (ArrayExpression.contains used to pass the item
+            # through unchecked: hl.array([1.5]).contains(2) built an Apply no engine signature matches; repaired in /repo)
+            x = mx.leaf(('L',), cap=_tcode(hl, base.dtype.element_type)).value
         elif ctor in ('set_add', 'set_contains'):
             x = mx.leaf(('S',), cap=_tcode(hl, base.dtype.element_type)).value
         elif ctor in ('dict_get', 'dict_index'):
@@ -1347,11 +1350,9 @@ class Mixer:
             if not m.np_leaf:
                 continue
             tc = self.units[m.unit][m.idx][0]
-            if tc == 'b':                     # tbool refuses numpy.bool_ even though impute_type maps it to bool
-                m.value, m.np_leaf = bool(m.value), False
-                self.units[m.unit][m.idx] = ('b', 'py')
-                self.replaced_np_bool += 1
-            elif m.pinned:                    # never widened: the tuple position has exactly this type
+            # (tbool used to refuse numpy.bool_ although impute_type maps it to bool: repaired in /repo, so numpy bools are ordinary
+            #  numpy scalars now)
+            if m.pinned:                    # never widened: the tuple position has exactly this type
                 continue
             elif self.b.guard_numpy:
                 m.value, m.np_leaf = m.value.item(), False
